@@ -220,7 +220,7 @@ def vm_crosscheck(cases, outs, tag, max_cases=40):
                  "Import ListNotations.", "Open Scope Z_scope."]
         for k, i in enumerate(idx):
             op, t = cases[i]
-            if len(dumps(t)) > 20000:
+            if len(dumps(t)) > 6000 or len(dumps(outs[i])) > 6000:
                 continue
             lines.append("Goal dispatch %d %s = %s. Proof. vm_compute. reflexivity. Qed." % (op, coq_tree(t), coq_tree(outs[i])))
         p = os.path.join(d, "cases.v")
@@ -271,7 +271,7 @@ def parse_assumptions(out, names):
         if b.startswith("Closed"):
             res[name] = []
         else:
-            axs = re.findall(r"^([A-Za-z_][\w.']*)\s*:", b[len("Axioms:"):], re.M)
+            axs = re.findall(r"^([A-Za-z_][\w.']*)\s*(?::|$)", b[len("Axioms:"):], re.M)
             res[name] = sorted(set(axs))
     return res
 
